@@ -157,6 +157,37 @@ def marker_rules(facts, rep, w, prefix=None, only=None):
                 n += 1
                 rep.ob("R10.2", b.id, "exists: marker consulted (directly or through the resolver)", True,
                        "direct marker test: %s; resolver tests it as well (R09.3)" % mk, s.line)
+        # every answer other than a constant `false` is given only after the marker was found absent (directly) or comes out
+        # of the resolver, which looks at the marker first: no "the upper layer has it, so it exists" shortcut in front
+        cb0 = ov.inter.code_body(b)
+        for ct, _, bb in ov.inter.ret_cases(b):
+            if ov.inter.case_polarity(ct) == "err":
+                continue
+            v = ct
+            if v[0] == "agg" and v[2] == "Ok" and v[3]:
+                v = v[3][0][1]
+            v = norm(v)
+            if v == ("int", 0):
+                continue
+            gs = ov.guards(cb0, bb)
+            nomark = any(g[0] == "bool" and g[2] is False and peel(g[1])[0] == "call" and sname(peel(g[1])[1]) == "exists" and
+                         peel(g[1])[2] and ov.is_marker(peel(g[1])[2][0]) for g in gs)
+            via = False
+            for x in walk(v):
+                if x[0] == "call" and isinstance(x[1], str):
+                    hb = ov.inter.body_of_call(x)
+                    if hb is not None and hb.impl and hb.impl["self_ty"] == w.overlay and ov._is_resolver(hb):
+                        via = True
+            for g in gs:
+                if g[0] == "variant" and g[2] == "ok":
+                    hb = ov.inter.body_of_call(peel(g[1])) if peel(g[1])[0] == "call" else None
+                    if hb is not None and hb.impl and hb.impl["self_ty"] == w.overlay and ov._is_resolver(hb):
+                        via = True
+            n += 1
+            rep.ob("R10.2", b.id, "exists: a positive answer is given only past the marker", nomark or via, "" if (nomark or via) else
+                   "exists can answer %s without having looked at the path's deletion marker: while a removed directory is being "
+                   "re-created (or after a late writer resurrected a removed file) exists and metadata disagree" % fmt(v)[:40],
+                   cb0.blocks[bb].term.line)
     n += c09.resolver_rules(facts, rep, w, rule="R10.2")
     # ---- R10.5 who may touch markers
     allowed = 0
@@ -281,4 +312,16 @@ def run(facts, rep, tier, ctx):
         k += c09.relative_join_rules(facts, A, wa, rule="R10.9")
         k += c09.table_u(facts, A, wa, rule="R10.7", only=("remove_dir",))
         rep.floor("async overlay marker obligations", k, 30)
+    # R10.4e a failure to read the markers is a failure of the listing: no Err edge in the overlay's read_dir ends in a
+    # success return (C20's Err-edge rule, restricted to that function) — "could not read the marker directory" must not
+    # mean "nothing was removed"
+    from . import c20
+    for w_ in (ws, wa):
+        if not w_.present():
+            continue
+        scratch = Report("e")
+        c20.run_world(facts, scratch, w_, {"results": 0, "err_edges": 0, "kind_arms": 0})
+        for o in scratch.obligations:
+            if o["rule"] in ("R20.1", "R20.4") and o["fn"].startswith("<" + w_.overlay) and o["fn"].endswith("::read_dir"):
+                rep.ob(("A/" if w_.asyncw else "") + "R10.4e", o["fn"], o["key"].split("|")[2], o["ok"], o["detail"], o["loc"])
     rep.assume("the reserved names ('.whiteout', '*_wo') are not used by callers (excluded by the property)")
